@@ -96,6 +96,11 @@ LevelsFollow(h) == \A i \in Idx(h) :
                      (h[i][1] = "svc2" /\ i > 3) =>
                         /\ h[i-1] = <<"svc", h[i][2]>> /\ h[i-2] = <<"meth", h[i][2]>>
                         /\ h[i-3] = <<"app", h[i][2]>>
+\* once the method is matched (k.bound) its own and its service's listeners see every call-level event the application's see
+\* (the exception events: a listener that raises during method_call / method_return_object legitimately cuts those short)
+BoundEvents == {"method_exception_object", "method_exception_document", "method_exception_string"}
+BoundLevelsSee(h, k) == (k.done /\ k.bound) =>
+                           \A e \in BoundEvents : Has(h, "app", e) => (Has(h, "svc", e) /\ Has(h, "meth", e))
 \* every ctx event seen by the service from method_call on was also seen (earlier) by the app
 SvcSubApp(h) == \A i \in Idx(h) : h[i][1] \in {"meth", "svc", "svc2"} =>
                     \E j \in 1..(i-1) : h[j] = <<"app", h[i][2]>>
